@@ -160,11 +160,11 @@ class _PathState:
 
 
 def _once_fit_pad(run, P, f: Func):
+    from .util import find, first, has
     loops = [n for n in f.node.body if isinstance(n, ast.For)]
     if len(loops) != 1:
         raise AnalysisError("wrap_line_base: main loop not found")
     lp = loops[0]
-    # loop variable for the word
     word = None
     if isinstance(lp.target, ast.Tuple) and len(lp.target.elts) == 2:
         word = lp.target.elts[1].id
@@ -172,68 +172,93 @@ def _once_fit_pad(run, P, f: Func):
         word = lp.target.id
     if word is None:
         raise AnalysisError("wrap_line_base: loop target")
-    flag = "at_line_start"
+    # roles
+    rets = [s_ for s_ in f.node.body if isinstance(s_, ast.Return) and isinstance(s_.value, ast.Name)]
+    if len(rets) != 1:
+        raise AnalysisError("wrap_line_base: 'return <lines>' not found")
+    lines = rets[0].value.id
+    flags = {}
+    for x in ast.walk(f.node):
+        if isinstance(x, ast.Assign) and len(x.targets) == 1 and isinstance(x.targets[0], ast.Name) \
+                and isinstance(x.value, ast.Constant) and isinstance(x.value.value, bool):
+            flags.setdefault(x.targets[0].id, set()).add(x.value.value)
+    fl = [n for n, v in flags.items() if v == {True, False}]
+    if len(fl) != 1:
+        raise AnalysisError("wrap_line_base: line-start flag not identified")
+    flag = fl[0]
+    after = f.node.body[f.node.body.index(lp) + 1:]
+    fin = [s_ for s_ in after if isinstance(s_, ast.Expr) and isinstance(s_.value, ast.Call)
+           and dotted(s_.value.func) == f"{lines}.append" and s_.value.args
+           and isinstance(s_.value.args[0], ast.Name)]
+    if len(fin) != 1:
+        run.ob("C20.pad", f, lp, False,
+               construct="after the loop: <lines>.append(<current line>) without marker",
+               why="the last line is not continued")
+        return
+    cur = fin[0].value.args[0].id
+    pad = "pad_func"
+    indent = "indentation"
     paths = []
 
     def run_block(stmts, st, k):
-        """Execute stmts on state st, then continue with k(st)."""
         if not stmts:
             k(st)
             return
-        s, rest = stmts[0], stmts[1:]
+        s_, rest = stmts[0], stmts[1:]
         cont = lambda st2: run_block(rest, st2, k)
-        if isinstance(s, ast.If):
-            t = s.test
+        if isinstance(s_, ast.If):
+            t = s_.test
             known = None
             if isinstance(t, ast.Name) and t.id == flag:
                 known = st.flag
             elif isinstance(t, ast.UnaryOp) and isinstance(t.op, ast.Not) \
                     and isinstance(t.operand, ast.Name) and t.operand.id == flag:
                 known = not st.flag
-            branches = [(True, s.body), (False, s.orelse)]
-            for val, body in branches:
+            for val, body in ((True, s_.body), (False, s_.orelse)):
                 if known is not None and val != known:
                     continue
                 st2 = _copy(st)
                 st2.trace.append(f"{'if' if val else 'else'} {norm(t, 40)}")
                 run_block(body, st2, cont)
             return
-        if isinstance(s, ast.Assign) and len(s.targets) == 1 and isinstance(s.targets[0], ast.Name):
-            name = s.targets[0].id
-            if name == flag and isinstance(s.value, ast.Constant):
-                st.flag = bool(s.value.value)
-            elif name == "current_line":
-                if word in {x.id for x in ast.walk(s.value) if isinstance(x, ast.Name)}:
-                    st.word_adds.append(("assign", norm(s.value), st.reset))
+        if isinstance(s_, ast.Assign) and len(s_.targets) == 1 and isinstance(s_.targets[0], ast.Name):
+            name = s_.targets[0].id
+            if name == flag and isinstance(s_.value, ast.Constant):
+                st.flag = bool(s_.value.value)
+            elif name == cur:
+                if word in {x.id for x in ast.walk(s_.value) if isinstance(x, ast.Name)}:
+                    st.word_adds.append(("assign", norm(s_.value), st.reset))
                 else:
-                    st.reset = norm(s.value) == "indentation"
-                    st.trace.append(f"current_line = {norm(s.value)}")
+                    st.reset = norm(s_.value) == indent
+                    st.trace.append(f"line = {norm(s_.value)}")
             cont(st)
             return
-        if isinstance(s, ast.AugAssign) and dotted(s.target) == "current_line" \
-                and isinstance(s.op, ast.Add):
-            if word in {x.id for x in ast.walk(s.value) if isinstance(x, ast.Name)}:
-                st.word_adds.append(("aug", norm(s.value), st.reset, st.flag))
+        if isinstance(s_, ast.AugAssign) and dotted(s_.target) == cur \
+                and isinstance(s_.op, ast.Add):
+            if word in {x.id for x in ast.walk(s_.value) if isinstance(x, ast.Name)}:
+                st.word_adds.append(("aug", norm(s_.value), st.reset, st.flag))
             cont(st)
             return
-        if isinstance(s, ast.Expr) and isinstance(s.value, ast.Call) \
-                and dotted(s.value.func) == "resulting_lines.append":
-            a = s.value.args[0]
-            padded = isinstance(a, ast.Call) and dotted(a.func) == "pad_func"
-            st.appends.append((padded, s))
+        if isinstance(s_, ast.Expr) and isinstance(s_.value, ast.Call) \
+                and dotted(s_.value.func) == f"{lines}.append":
+            a_ = s_.value.args[0]
+            padded = isinstance(a_, ast.Call) and dotted(a_.func) == pad \
+                and a_.args and dotted(a_.args[0]) == cur
+            st.appends.append((padded, s_))
             cont(st)
             return
-        if isinstance(s, (ast.Continue,)):
+        if isinstance(s_, ast.Continue):
             k(st)
             return
         cont(st)
 
     for init in (True, False):
         st0 = _PathState(init)
-        st0.trace.append(f"{flag}={init}")
+        st0.trace.append(f"at_start={init}")
         run_block(lp.body, st0, lambda st: paths.append(st))
     if len(paths) < 3:
         raise AnalysisError("wrap_line_base: fewer than three feasible paths")
+    n_app = 0
     for st in paths:
         adds = st.word_adds
         ok = len(adds) == 1
@@ -242,7 +267,6 @@ def _once_fit_pad(run, P, f: Func):
             kind = adds[0]
             text = kind[1]
             flag_at_add = kind[3] if len(kind) > 3 else None
-            # separator iff not at line start
             if kind[0] == "aug":
                 if flag_at_add is False:
                     sep_ok = text in (f"' ' + {word}", f'" " + {word}')
@@ -250,50 +274,54 @@ def _once_fit_pad(run, P, f: Func):
                     sep_ok = text == word
         run.ob("C20.once", f, lp, ok and sep_ok and st.flag is False,
                construct=f"path [{' ; '.join(st.trace)}]: word added {len(adds)} time(s) "
-                         f"{[a[1] for a in adds]}",
+                         f"{[a_[1] for a_ in adds]}",
                why="a word added twice, not at all, or without its separator changes "
                    "the token sequence of the wrapped line")
         for padded, node in st.appends:
+            n_app += 1
             run.ob("C20.pad", f, node, padded,
                    construct=f"in-loop append: {norm(node, 70)}",
                    why="a line that is continued must carry the continuation marker")
-    # after the loop
-    after = f.node.body[f.node.body.index(lp) + 1:]
-    fin = [s for s in after if isinstance(s, ast.Expr) and isinstance(s.value, ast.Call)
-           and dotted(s.value.func) == "resulting_lines.append"]
-    ok = len(fin) == 1 and dotted(fin[0].value.args[0]) == "current_line"
-    run.ob("C20.pad", f, fin[0] if fin else lp, ok,
-           construct="after the loop: resulting_lines.append(current_line) without marker",
+    if n_app == 0:
+        raise AnalysisError("wrap_line_base: no in-loop append found")
+    run.ob("C20.pad", f, fin[0], True,
+           construct="after the loop: <lines>.append(<current line>) without marker",
            why="the last line is not continued")
     # fit test
+    width = "width"
     fit = None
     for n in ast.walk(lp):
-        if isinstance(n, ast.If) and "next_len" in ast.unparse(n.test):
+        if isinstance(n, ast.If) and any(isinstance(x, ast.Compare) and any(
+                isinstance(y, ast.Name) and y.id == width for y in ast.walk(x))
+                for x in ast.walk(n.test)):
             fit = n
     if fit is None:
         raise AnalysisError("wrap_line_base: fit test not found")
+    hn = first(f"V_h = V_i < len(V_t) - 1", lp)
+    has_next = hn[1]["V_h"] if hn[0] is not None else None
     bad = []
 
     def visit(e, guarded):
         if isinstance(e, ast.BoolOp) and isinstance(e.op, ast.And):
-            g = guarded or any(norm(v) == "not has_next_word" for v in e.values)
+            gd = guarded or any(has_next and norm(v) == f"not {has_next}" for v in e.values)
             for v in e.values:
-                visit(v, g)
+                visit(v, gd)
         elif isinstance(e, ast.BoolOp):
             for v in e.values:
                 visit(v, guarded)
-        elif isinstance(e, ast.Compare) and "next_len" in norm(e) and "width" in norm(e):
+        elif isinstance(e, ast.Compare) and len(e.ops) == 1:
+            l_is_w = dotted(e.left) == width
+            r_is_w = dotted(e.comparators[0]) == width
+            if not (l_is_w or r_is_w):
+                return
             op = e.ops[0]
-            left_is_len = "next_len" in norm(e.left)
-            nonstrict = isinstance(op, (ast.LtE, ast.Eq)) if left_is_len \
+            nonstrict = isinstance(op, (ast.LtE, ast.Eq)) if r_is_w \
                 else isinstance(op, (ast.GtE, ast.Eq))
             if nonstrict and not guarded:
                 bad.append(e)
 
     visit(fit.test, False)
-    hn = any(isinstance(s, ast.Assign) and dotted(s.targets[0]) == "has_next_word"
-             and norm(s.value) == "index < len(tokens) - 1" for s in lp.body)
-    run.ob("C20.fit", f, bad[0] if bad else fit.test, not bad and (hn or "has_next_word" not in ast.unparse(fit.test)),
+    run.ob("C20.fit", f, bad[0] if bad else fit.test, not bad,
            construct=f"fit test: {norm(fit.test, 100)}",
            why="a word that is not the last one gets a continuation marker after it: "
                "allowed to end exactly in the last column, the padded line is one "
@@ -315,11 +343,12 @@ def _pads(run, P):
         f = P.func(fq)
         body = [s for s in f.node.body if not (isinstance(s, ast.Expr)
                                                and isinstance(s.value, ast.Constant))]
+        ln_, wd_ = f.params[0], f.params[1]
         ok = len(body) == 3 \
-            and norm(body[0]) == "line += ' ' * (width - 1 - len(line))" \
+            and norm(body[0]) == f"{ln_} += ' ' * ({wd_} - 1 - len({ln_}))" \
             and isinstance(body[1], ast.AugAssign) and string_value(body[1].value) == marker \
-            and dotted(body[1].target) == "line" \
-            and isinstance(body[2], ast.Return) and dotted(body[2].value) == "line"
+            and dotted(body[1].target) == ln_ \
+            and isinstance(body[2], ast.Return) and dotted(body[2].value) == ln_
         run.ob("C20.pad", f, f.node, ok,
                construct=f"{f.name}: fill to width-1, append {marker!r}, return",
                why="the continuation marker must be the last character of a continued line")
@@ -344,10 +373,15 @@ def _use(run, P):
                "like code: its continuation lines lack the '!' and the module does "
                "not compile")
     g = P.func("dagrt.codegen.python.CodeGenerator._emit")
-    src = ast.unparse(g.node)
-    ok = "level = self._class_emitter.level + self._emitter.level" in src \
-        and "for wrapped_line in wrap_line(line, level):" in src \
-        and "self._emitter(wrapped_line)" in src
+    from .util import first, has
+    lv = first("V_l = self._class_emitter.level + self._emitter.level", g.node)
+    ok = False
+    if lv[0] is not None:
+        for lp_ in ast.walk(g.node):
+            if isinstance(lp_, ast.For) and isinstance(lp_.target, ast.Name) \
+                    and norm(lp_.iter) == f"wrap_line({g.params[1]}, {lv[1]['V_l']})" \
+                    and has(f"self._emitter({lp_.target.id})", lp_):
+                ok = True
     run.ob("C20.use", g, g.node, ok,
            construct="_emit: wrap_line(line, class level + function level), every piece emitted",
            why="the width budget depends on the real indentation")
